@@ -2,7 +2,7 @@
    Property theorems only.  [the_table] is REGENERATED from the Go source on every check
    (Gen/GenesisTable.v); the finite theorems are by computation over it, the lifting lemmas are
    generic (Proofs/GenesisProofs.v).  The property is false for the (module, prefix) pairs listed in
-   [known_holes] (classes kf_C20 3..6, 8..11, 13..16); each class has a [_refuted] statement, and
+   [known_holes] (classes kf_C20 3..6, 8..11, 14..16); each class has a [_refuted] statement, and
    the positive theorems are stated on the complement.
    fixed: property=C20 PENDING collector ExportGenesis emitted zero-valued net-fee records (class 1)
    fixed: property=C20 PENDING auctionsV2 InitGenesis reset the exported auction id and user bid id
@@ -38,7 +38,8 @@ Print Assumptions c20_roundtrip_table_partial.
    are consistent with their records, InitGenesis (ExportGenesis s) has exactly the entries of s
    under every live non-counter prefix outside the known-finding classes.  [roundtrip] is the
    success path of InitGenesis; prefixes whose import can be cut short by a setter that validates
-   against other state are excluded by [survives] (class 13). *)
+   against other state are excluded by [survives] unless that validation is harmless
+   ([guard_harmless], see c20_esm_guard_harmless); no module has such a prefix today. *)
 Theorem c20_roundtrip_partial : forall p dv s,
   In p prefixes -> live p = true -> p_counter p = false ->
   kf_C20_any (p_mod p) (p_byte p) = false ->
@@ -135,15 +136,24 @@ Theorem c20_maxid_refuted :
 Proof. repeat split; try (vm_compute; reflexivity). apply max_restore_reissues. Qed.
 Print Assumptions c20_maxid_refuted.
 
-(* class 13: the esm kill switches are imported through a setter that validates against the asset
-   module and can return an error, on which InitGenesis returns; the user deposits and the cool-off
-   data come after it.  (The collector rows of the former class 12 are no longer at risk.) *)
-Theorem c20_esm_guarded_import_refuted :
-  at_risk the_table "esm" 4 = true /\ at_risk the_table "esm" 5 = true /\
-  at_risk the_table "esm" 7 = true /\ at_risk the_table "esm" 3 = false /\
-  at_risk the_table "locker" 21 = false /\ at_risk the_table "vault" 16 = false.
+(* ---------------- decided: not a defect ---------------- *)
+(* former class 13: esm InitGenesis imports the kill switches through SetKillSwitchData, which
+   returns an error when the app is not registered in the asset module, and returns on it (the user
+   deposits and the cool-off data come after it).  The regenerated table says: that setter is the
+   only writer of the kill-switch prefix, reads nothing of the esm store, and asks the asset module
+   for the app only (asset prefix 21: never deleted, comes back from the round trip through setters
+   that cannot fail, and asset is initialised before esm).  So every exported kill switch is accepted
+   again: nothing of esm is at risk.  A second writer of the prefix or esm initialised before asset
+   would put it at risk again (last two conjuncts: the decision is sensitive to both). *)
+Example c20_esm_guard_harmless :
+  existsb (fun r => String.eqb (i_mod r) "esm" && (i_guard r =? 1)) imports = true /\
+  forallb (guard_harmless the_table) (filter (fun r => (i_guard r =? 1) || (i_guard r =? 2)) imports) = true /\
+  at_risk the_table "esm" 4 = false /\ at_risk the_table "esm" 5 = false /\ at_risk the_table "esm" 7 = false /\
+  kf_C20_any "esm" 4 = false /\
+  at_risk (mkT prefixes exports imports unrecognised
+               [mkGD "esm" "SetKillSwitchData" false true [("asset", "GetApp", [21])]] init_order) "esm" 5 = true /\
+  at_risk (mkT prefixes exports imports unrecognised guard_deps ["esm"; "asset"]) "esm" 5 = true.
 Proof. vm_compute. repeat split. Qed.
-Print Assumptions c20_esm_guarded_import_refuted.
 
 (* ---------------- regressions of the repaired findings ---------------- *)
 (* C20-F1 (fixed): the net-fee prefix is exported WITH its values and imported from the same field;
